@@ -1,7 +1,7 @@
 (* C15, link to the source: InitGenesis of /repo/x/stream/keeper/genesis.go as generated on every run
    (coq/GeneratedStreamKeeper.v: go_InitGenesis) against the model of genesis import (model/Genesis.v: import_str).  The
    generated document is read as the model's by [gen_str_of_go], a fresh store is [fresh_kworld]
-   (model/StreamGenesisGenSpec.v).  (ExportGenesis of x/stream iterates with a callback and is not translated.)
+   (model/StreamGenesisGenSpec.v).  (ExportGenesis of x/stream is translated too (props/C15generatedstr2.v).)
    Proofs: proofs/GeneratedStreamGenesisEq.v.
 
    What the Go code does: sets the parameters (dropping the error), stores every stream of the document while adding its
